@@ -478,6 +478,14 @@ def ite(c, a, b):
     if ta is Rf:
         if isinstance(b, Rf) and a.place.same(b.place):
             return a
+        if isinstance(b, Rf) and a.place.scope is b.place.scope and a.place.var == b.place.var \
+                and len(a.place.path) == len(b.place.path) and a.place.path \
+                and repr(a.place.path[:-1]) == repr(b.place.path[:-1]) \
+                and a.place.path[-1][0] == b.place.path[-1][0] and a.place.path[-1][0] in ("i", "k"):
+            # two references into the same container: one reference with a symbolic index / key
+            la, lb = a.place.path[-1], b.place.path[-1]
+            merged = (la[0], ite(c, la[1], lb[1]))
+            return Rf(type(a.place)(a.place.scope, a.place.var, a.place.path[:-1] + (merged,)))
         raise Unsupported("ite: merging two different &mut references")
     if ta in (Clo, FnV, Opaque):
         return a
